@@ -129,8 +129,11 @@ func init() {
 	Properties["C13"] = func(env *Env) []*Harness { return []*Harness{HExported(), HVars()} }
 	Properties["C20"] = func(env *Env) []*Harness { return []*Harness{HPairName(), HMock(), HRun()} }
 	Properties["C17"] = func(env *Env) []*Harness { return []*Harness{HRun(), HMain(), HMock()} }
-	for _, p := range []string{"C03", "C04", "C05", "C06", "C07", "C08"} {
+	for _, p := range []string{"C03", "C04", "C07", "C08"} {
 		Properties[p] = func(env *Env) []*Harness { return []*Harness{HGenSeq()} }
+	}
+	for _, p := range []string{"C05", "C06"} {
+		Properties[p] = func(env *Env) []*Harness { return []*Harness{HGenSeq(), HSched()} }
 	}
 	Properties["C02"] = func(env *Env) []*Harness { return []*Harness{HMock(), HGenSeq()} }
 	Properties["C09"] = func(env *Env) []*Harness { return []*Harness{HMock()} }
